@@ -26,7 +26,9 @@ static std::string evp_at(dd_edge &e, forest* f, int x1, int x2)
 static int replay_evplus_pw(replay_args &a)
 {
     std::string op = a.job.substr(7, a.job.find('_', 7) - 7);     // evplus_<op>_shortcuts_pw
-    binary_builtin0 which = op == "mult" ? MULTIPLY : op == "div" ? DIVIDE : op == "mod" ? MODULO : nullptr;
+    binary_builtin0 which = op == "mult" ? MULTIPLY : op == "div" ? DIVIDE : op == "mod" ? MODULO : op == "plus" ? PLUS : op == "minus" ? MINUS : op == "max" ? MAXIMUM : op == "min" ? MINIMUM : nullptr;
+    const bool factored = (op == "plus" || op == "minus");      // node-level lemma: the edge values are factored out (0 here)
+    const bool eqargs = (a.obligation == "equal_arguments_shortcut_is_pointwise_sound");
     if (!which) { printf("unknown operation %s\n", op.c_str()); return 2; }
     initialize();
     int bounds[] = {2, 2};
@@ -34,8 +36,14 @@ static int replay_evplus_pw(replay_args &a)
     policies p; p.useDefaults(SET); p.setFullyReduced();
     forest* f = forest::create(d, SET, range_type::INTEGER, edge_labeling::EVPLUS, p);
     dd_edge A(f), B(f), C(f), PA(f), PB(f), PC(f); pval pa, pb, dummy;
-    evp_build(f, (int)a.i("w_ap"), a.i("w_av"), a.i("w_da"), a.i("w_dai") != 0, 1, A, pa);
-    evp_build(f, (int)a.i("w_bp"), a.i("w_bv"), a.i("w_db"), a.i("w_dbi") != 0, 2, B, pb);
+    if (factored) {
+        evp_build(f, (int)a.i("w_a"), 0, a.i("w_da"), a.i("w_dai") != 0, 1, A, pa);
+        evp_build(f, (int)a.i("w_b"), 0, a.i("w_db"), a.i("w_dbi") != 0, 2, B, pb);
+    } else {
+        evp_build(f, (int)a.i("w_ap"), a.i("w_av"), a.i("w_da"), a.i("w_dai") != 0, 1, A, pa);
+        evp_build(f, (int)a.i("w_bp"), a.i("w_bv"), a.i("w_db"), a.i("w_dbi") != 0, 2, B, pb);
+    }
+    if (eqargs) { B = A; pb = pa; }                              // op(x, x)
     evp_build(f, pa.inf ? 0 : -1, pa.v, 0, false, 1, PA, dummy);          // the constants A(1,1) and B(1,1)
     evp_build(f, pb.inf ? 0 : -1, pb.v, 0, false, 2, PB, dummy);
     std::string got, want;
